@@ -155,13 +155,13 @@ func drawSpecs(t *rapid.T, n int) []Spec {
 	for i := 0; i < n; i++ {
 		switch rapid.IntRange(0, 2).Draw(t, "profile") {
 		case 0:
-			d := specgen.GenExchangeDoc(t, specgen.ExchangeOptions{Formats: true, TimeFormat: "date-time", Validators: true})
+			d := specgen.GenExchangeDoc(t, specgen.ExchangeOptions{Formats: true, TimeFormat: "date-time", Validators: true, Docs: true})
 			out = append(out, Spec{Name: fmt.Sprintf("exchange%d", i), Text: string(d.Render())})
 		case 1:
 			d := specgen.GenHostileDoc(t, true)
 			out = append(out, Spec{Name: fmt.Sprintf("hostile%d", i), Text: string(d.Render())})
 		default:
-			comps := specgen.GenComponents(t, specgen.Options{MaxDepth: 3, Validators: true, Sums: true, AllOf: true, Refs: true, Nullable: true, Maps: true}, rapid.IntRange(2, 8).Draw(t, "ncomp"))
+			comps := specgen.GenComponents(t, specgen.Options{MaxDepth: 3, Validators: true, Sums: true, AllOf: true, Refs: true, Nullable: true, Maps: true, Docs: true}, rapid.IntRange(2, 8).Draw(t, "ncomp"))
 			var d specgen.Doc
 			d.Components = comps
 			for j, n := range comps.Names() {
@@ -418,4 +418,99 @@ func TestCrossProcess(t *testing.T) {
 	}
 	u.Set("repetitions", reps)
 	u.Set("documents", len(specs))
+}
+
+// ---- recursive schemas: map-order dependent decisions show on reference cycles ----------------
+//
+// Component sets with dense reference cycles (every object points at two others through an
+// optional member / array / map) and validators on some members, each generated 6 times in this
+// process (tstorage maps are iterated in a fresh random order every time).
+
+type recCase struct {
+	Spec Spec `json:"spec"`
+}
+
+func drawRecursive(t *rapid.T) recCase {
+	n := rapid.IntRange(2, 5).Draw(t, "ncomp")
+	comps := specgen.Components{}
+	names := make([]string, n)
+	for i := range names {
+		names[i] = fmt.Sprintf("T%d", i)
+	}
+	propNames := []string{"a", "link", "m", "name", "next", "target", "z"}
+	for i, nm := range names {
+		o := &specgen.Schema{Type: "object"}
+		used := map[string]bool{}
+		np := rapid.IntRange(2, 4).Draw(t, "nprops")
+		for j := 0; j < np; j++ {
+			pn := rapid.SampledFrom(propNames).Draw(t, "pname")
+			if used[pn] {
+				continue
+			}
+			used[pn] = true
+			var ps *specgen.Schema
+			switch rapid.IntRange(0, 5).Draw(t, "pkind") {
+			case 0, 1:
+				ps = &specgen.Schema{Ref: names[rapid.IntRange(0, n-1).Draw(t, "target")]}
+			case 2:
+				ps = &specgen.Schema{Type: "array", Items: &specgen.Schema{Ref: names[rapid.IntRange(0, n-1).Draw(t, "atarget")]}}
+			case 3:
+				ml := rapid.IntRange(1, 5).Draw(t, "minlen")
+				ps = &specgen.Schema{Type: "string", MinLen: &ml}
+			case 4:
+				ps = &specgen.Schema{Type: "integer", Min: "1"}
+			default:
+				ps = &specgen.Schema{Type: "string"}
+			}
+			o.Props = append(o.Props, specgen.Prop{Name: pn, Schema: ps})
+		}
+		// make sure every component is on a cycle: an optional edge to the next one
+		if !used["next"] {
+			o.Props = append(o.Props, specgen.Prop{Name: "next", Schema: &specgen.Schema{Ref: names[(i+1)%n]}})
+		}
+		comps[nm] = o
+	}
+	var d specgen.Doc
+	d.Components = comps
+	for j, nm := range names {
+		d.Ops = append(d.Ops, specgen.Operation{ID: fmt.Sprintf("op%d", j), Method: "POST", Path: fmt.Sprintf("/b%d", j),
+			Body:      &specgen.Body{Required: true, Media: []specgen.Media{{ContentType: "application/json", Schema: &specgen.Schema{Ref: nm}}}},
+			Responses: []specgen.Response{{Code: "200", Media: []specgen.Media{{ContentType: "application/json", Schema: &specgen.Schema{Ref: nm}}}}}})
+	}
+	return recCase{Spec: Spec{Name: "recursive", Text: string(d.Render())}}
+}
+
+func TestRecursiveSchemas(t *testing.T) {
+	if os.Getenv("VERIF_C10_WORKER") != "" {
+		return
+	}
+	u := vk.New(t, "C10", "recursive-schemas")
+	defer u.Close()
+	vk.Rapid(u, vk.N(32, 1200), nil, drawRecursive, func(c recCase) *vk.Finding {
+		var ref map[string]string
+		var refClass string
+		for i := 0; i < 6; i++ {
+			files, class := generate(c.Spec)
+			u.Eval(1)
+			if strings.HasPrefix(class, "panic") {
+				return vk.F("generator-panic", "%s", trim(class, 1500))
+			}
+			if i == 0 {
+				ref, refClass = files, class
+				continue
+			}
+			if class != refClass {
+				return vk.F("outcome-differs-between-runs", "recursive schemas: generation 1 %q, generation %d %q", refClass, i+1, class)
+			}
+			if digest(files, class) != digest(ref, refClass) {
+				return vk.F("output-differs-between-runs", "recursive schemas: generation %d differs from the first one: %s", i+1, firstDiff(ref, files))
+			}
+		}
+		if refClass == "ok" {
+			u.NonTrivial(c.Spec.Text)
+			u.Sample(map[string]any{"spec": trim(c.Spec.Text, 600), "files": len(ref)})
+		}
+		u.Label("outcome:" + strings.SplitN(refClass, ":", 2)[0])
+		return nil
+	})
 }
